@@ -208,13 +208,36 @@ def depth_of(t):
 # ---------------------------------------------------------------------------
 # codecs: tokens <-> model numbers
 
+FUND_BASE = 4000000
+
+
+class _Rev(dict):
+    """value id -> text; ids above FUND_BASE are fundamental type names (Parse/Declarator.v fund_code: the keyword token types
+    in order, base 1024 behind a leading 1), decoded to the implementation's spelling 'unsigned long' ..."""
+
+    def __missing__(self, k):
+        if isinstance(k, int) and k > FUND_BASE:
+            x, ws = k - FUND_BASE, []
+            while x > 1:
+                ws.append(impl.TT[x % 1024])
+                x //= 1024
+            return ' '.join(reversed(ws))
+        raise KeyError(k)
+
+    def get(self, k, default=None):
+        try:
+            return self[k]
+        except KeyError:
+            return default
+
+
 class Names:
     """value ids: 0 is reserved (void / no value); strings get 1, 2, ..."""
 
     def __init__(self):
         # two texts the implementation compares by VALUE have fixed ids (Parse/MethodTail.v VAL_override, VAL_zero)
         self.ids = {'override': 1, '0': 2}
-        self.rev = {0: '', 1: 'override', 2: '0'}
+        self.rev = _Rev({0: '', 1: 'override', 2: '0'})
 
     def id(self, s):
         if s not in self.ids:
